@@ -464,7 +464,7 @@ func execA(t *testing.T, raw json.RawMessage) *sim.Outcome {
 		o.SimTimeS += sim.SimNow()
 	})
 	if fail != "" {
-		o.Fail("harness.bubble", "bubble", 0, "%s", fail)
+		failBubble(o, fail)
 	}
 	o.Signature = strings.Join(sigParts, ";")
 	return o
@@ -472,3 +472,13 @@ func execA(t *testing.T, raw json.RawMessage) *sim.Outcome {
 
 // Specs of the attestation world.
 var Specs = []*sim.Spec{{Property: "C06", World: "A", Generate: genA, Execute: execA, Shrink: shrinkA}}
+
+// failBubble classifies the failure of a bubble: a deadlock (every goroutine of the simulated world blocked
+// for ever) means an operation of the code under test never completed.
+func failBubble(o *sim.Outcome, fail string) {
+	if strings.Contains(fail, "deadlock") {
+		o.Fail("any.stalled", "stalled", 0, "the simulated world came to a standstill: an operation never completed (%s)", fail)
+		return
+	}
+	o.Fail("harness.bubble", "bubble", 0, "%s", fail)
+}
